@@ -127,6 +127,15 @@ class Harnessed(object):
         p.on('callRangeValue', self.on_range)
         p.on('callVariable', self.on_var)
         p.on('callFunction', self.on_fn)
+        self.raises = set(env.get('raises', ()))
+        p.on('callCellValue', lambda c, s: self.maybe_raise('cell:*'))
+        p.on('callRangeValue', lambda a, b, s: self.maybe_raise('range:*'))
+        p.on('callVariable', lambda name, s: self.maybe_raise('var:' + name))
+        p.on('callFunction', lambda name, args, s: self.maybe_raise('fn:' + name))
+
+    def maybe_raise(self, tag):
+        if tag in self.raises:
+            raise HostError('listener raised for ' + tag)
 
     def custom(self, name, c):
         def fn(*args):
